@@ -256,24 +256,31 @@ def check(tier):
                     dist["ast"] += 1
                 except ValueError as e:
                     problems.append(("tree-shape", s, le, str(e)))
-            # the same stream with REPEATED lexemes (every token of a kind spelled alike): each leaf value must still be the
-            # one of its own token, with its own position (leaves reach the callback in source order)
+            re_ = hook.call({"op": "parse_trace", "mode": "eval", "tokens": fake(s)})
+            # the same stream with REPEATED lexemes (every token of a kind spelled alike): call by call, argument by argument,
+            # a leaf value must be the one of the same token as in the run with unique lexemes "t<i>", with that token's position
             rep_toks = [[T.terms[a], "same_%s" % T.terms[a]] for a in s]
             rr = hook.call({"op": "parse_trace", "mode": "eval", "tokens": rep_toks})
-            k_ = 0
-            for e_ in rr.get("log", []):
-                for v_, pos_ in e_[2]:
-                    if isinstance(v_, str) and v_.startswith("#"):
-                        continue
-                    if k_ >= len(rep_toks) or v_ != rep_toks[k_][1] or pos_ != [k_, 1, k_ + 1]:
-                        problems.append(("eval-leaf", s, le, {"leaf_number": k_, "value": v_, "position": pos_,
-                                                              "expected_position": [k_, 1, k_ + 1], "note": "all tokens of a kind share one lexeme"}))
-                        k_ = 10 ** 9
+            ulog, rlog = re_.get("log", []), rr.get("log", [])
+            if len(ulog) != len(rlog) or rr.get("error") is not None:
+                problems.append(("eval-leaf", s, le, {"note": "with repeated lexemes the evaluation takes another course",
+                                                      "calls_unique": len(ulog), "calls_repeated": len(rlog), "error": rr.get("error")}))
+            else:
+                for eu, er in zip(ulog, rlog):
+                    bad_ = None
+                    if eu[1] != er[1] or len(eu[2]) != len(er[2]):
+                        bad_ = {"note": "another production or arity", "unique": eu[:2], "repeated": er[:2]}
+                    else:
+                        for (vu, pu), (vr, pr) in zip(eu[2], er[2]):
+                            if isinstance(vu, str) and vu.startswith("t") and vu[1:].isdigit():
+                                i_ = int(vu[1:])
+                                if vr != rep_toks[i_][1] or pr != [i_, 1, i_ + 1]:
+                                    bad_ = {"token_number": i_, "value": vr, "position": pr, "expected_position": [i_, 1, i_ + 1],
+                                            "note": "all tokens of a kind share one lexeme"}
+                                    break
+                    if bad_:
+                        problems.append(("eval-leaf", s, le, bad_))
                         break
-                    k_ += 1
-                if k_ >= 10 ** 9:
-                    break
-            re_ = hook.call({"op": "parse_trace", "mode": "eval", "tokens": fake(s)})
             if re_.get("error") is not None or re_.get("nil_result"):
                 problems.append(("eval-mode-failed", s, le, re_))
             elif tree is not None:
